@@ -1,13 +1,32 @@
 import Pandora.Drv.Util
-import Pandora.Drv.C08
 import Pandora.Model.C14
 import Pandora.Spec.C14
 
 namespace Pandora.Drv.C14
-open Pandora.Drv Pandora.Model.C08 Pandora.Model.C14
+open Pandora.Drv
+open Pandora.Model.C08 hiding fullScan httpRun runFuel run
+open Pandora.Model.C14
+
+def parseFmt : String → Option Fmt
+  | "uri" => some .uri | "uripost" => some .uripost | "raw" => some .raw
+  | "jsonl" => some .jsonLines | "jsonarr" => some .jsonArray
+  | _ => none
+
+def parseRun (s : String) : Spec.C14.RunClass :=
+  match s with
+  | "nil" => .nil | "canceled" => .canceled | "limit" => .limit | "passes" => .passes
+  | "noammo" => .noammo | "noreturn" => .noreturn | "construct" => .construct | _ => .other
+
+def parseEnd : String → Option Spec.C14.EndClass
+  | "closed" => some .closed | "blocked" => some .blocked | "spinning" => some .spinning | "norun" => some .norun
+  | _ => none
+
+def classOf : RunRes → Spec.C14.RunClass
+  | .nil => .nil | .canceled => .canceled | .errLimit => .limit | .errPasses => .passes
+  | .errNoAmmo => .noammo | .errOther => .other
 
 structure Line where
-  kind : Kind
+  kind : Fmt
   tags : List String
   cases : List String
   b : Bounds
@@ -15,46 +34,56 @@ structure Line where
   cell : Spec.C14.Cell
 
 def parseLine (kv : List (String × String)) : Option Line := do
-  let kind ← C08.parseKind (getS kv "fmt")
+  let kind ← parseFmt (getS kv "fmt")
   let limit ← getN? kv "limit"
   let passes ← getN? kv "passes"
   let cap ← getN? kv "cap"
-  let tags := splitList (getS kv "tags")
+  let ts := getS kv "tags"
+  let tags := if ts == "-" then [] else splitList ts
   let cs := getS kv "cases"
   let cases := if cs == "-" then [] else splitList cs
   pure { kind, tags, cases, b := ⟨limit, passes⟩, cap, cell := { tags, cases, limit, passes, cap } }
 
-/-- what the harness would observe on one side of the model -/
+/-- what the harness would observe on one side of the model (`cap` = the acquisition count at which it cancels) -/
 def sideOf (cap : Nat) : Option (Outcome Entry) → Spec.C14.Side
   | none => { seq := [], cut := false, run := .noreturn, end_ := .spinning }
-  | some o => { seq := o.delivered.map (·.id), cut := decide (0 < cap ∧ cap ≤ o.delivered.length), run := C08.classOf o.run,
+  | some o => { seq := o.delivered.map (·.id), cut := decide (0 < cap ∧ cap ≤ o.delivered.length), run := classOf o.run,
                 end_ := if o.sinkClosed then .closed else .blocked }
 
-def modelSide (l : Line) (preload : Bool) : Spec.C14.Side :=
-  sideOf l.cap (run l.kind preload l.tags l.cases l.b (if l.cap = 0 then none else some l.cap))
+/-- a file that `NewProvider` rejects: nothing runs -/
+def constructFailed : Spec.C14.Side := { seq := [], cut := false, run := .construct, end_ := .norun }
+
+def modelSideOf (k : Fmt) (preload : Bool) (tags cases : List String) (b : Bounds) (cap : Nat) : Spec.C14.Side :=
+  if constructs k tags.length then sideOf cap (run k preload tags cases b (if cap = 0 then none else some cap))
+  else constructFailed
+
+def modelSide (l : Line) (preload : Bool) : Spec.C14.Side := modelSideOf l.kind preload l.tags l.cases l.b l.cap
+
+/-- the model's observation of a cell -/
+def modelObsOf (k : Fmt) (tags cases : List String) (b : Bounds) (cap : Nat) : Spec.C14.Obs :=
+  { s := modelSideOf k false tags cases b cap, p := modelSideOf k true tags cases b cap, tagsOk := true }
 
 def showSeq (s : List Nat) : String := if s.isEmpty then "-" else String.intercalate "," (s.map toString)
 
 /-- whether a run that never returns keeps reading the file (`spinning`) or not (`blocked`) is a diagnosis of the
 watchdog, not predicted by the model: echoed from the implementation's observation -/
 def showSide (p : String) (x : Spec.C14.Side) (implEnd : String) : String :=
-  let e := if x.run == .noreturn then implEnd else C08.endName x.end_
-  s!"{p}.seq={showSeq x.seq} {p}.cut={if x.cut then 1 else 0} {p}.run={C08.runClassName x.run} {p}.end={e}"
+  let e := if x.run == .noreturn then implEnd else x.end_.name
+  s!"{p}.seq={showSeq x.seq} {p}.cut={if x.cut then 1 else 0} {p}.run={x.run.name} {p}.end={e}"
 
 def modelObs (l : Line) (ikv : List (String × String)) : String :=
-  s!"{showSide "s" (modelSide l false) (getS ikv "s.end" "spinning")} {showSide "p" (modelSide l true) (getS ikv "p.end" "spinning")} tagsok={getS ikv "tagsok" "1"}"
+  s!"{showSide "s" (modelSide l false) (getS ikv "s.end" "spinning")} {showSide "p" (modelSide l true) (getS ikv "p.end" "spinning")} tagsok=1"
 
 def parseSeq (s : String) : Option (List Nat) := if s == "-" then some [] else parseNats s
 
 def parseSide (kv : List (String × String)) (p : String) : Option Spec.C14.Side := do
   pure { seq := ← parseSeq (getS kv (p ++ ".seq")), cut := getS kv (p ++ ".cut") == "1",
-         run := C08.parseRun (getS kv (p ++ ".run")), end_ := ← C08.parseEnd (getS kv (p ++ ".end")) }
+         run := parseRun (getS kv (p ++ ".run")), end_ := ← parseEnd (getS kv (p ++ ".end")) }
 
 def handle : Handler := fun input impl =>
   match parseLine (parseKV input) with
   | none => ("-", "fail:driver:unparsable input")
   | some l =>
-    if l.tags.isEmpty then ("-", "skip:empty-file") else
     let ikv := parseKV impl
     match parseSide ikv "s", parseSide ikv "p" with
     | some s, some p =>
